@@ -1,19 +1,42 @@
-import Pyrtma.Proofs.HashText
+import Pyrtma.Proofs.HashValue
+import Pyrtma.Proofs.YamlDef
 /-!
-# C13 — the version hash identifies the definition text
+# C13 — the version hash identifies the definition text, everywhere the same
 
-Theorems about `Model/HashText.lean` (the text `handle_message_def / handle_signal / handle_struct` feed to
-SHA-256).  SHA-256 is not evaluated here: "the hash changes" is proved as "the hashed text changes"; that the
-digest of the model's text is the parser's digest is established for every generated definition by the harness.
+Theorems about `Model/HashText.lean` (the text `handle_message_def / handle_signal / handle_struct` feed to SHA-256)
+and `Model/Sha256.lean` (SHA-256 itself, executable, FIPS 180-4; the published vectors are kernel-checked theorems
+in `Proofs/Sha256.lean`, and on every run the model's digest is compared with hashlib's on thousands of byte
+strings and on every generated definition text).  `hash32 d` is the number `int(MDF.hash[:8], 16)` that the four
+back ends print and `Client.send_message` stamps into `header.version`; `digestHex d` is `MDF.hash`.
 
 Clauses of the property and where they are decided:
-* *depends only on name, id, ordered field names with type texts* — `text_function_of_identity` (theorem);
-* *changes whenever any of those changes* — `rawText_injective_partial` (theorem) for definitions that list their
-  fields or are signals; for the re-use form `fields: OTHER` the full statement is **false** (`reuse_form_*`
-  theorems below = finding C13-F1);
-* *same from every file location, import order, comments, blank lines, unrelated definitions* — the model takes
-  none of these as input (true by its type); that the real parser behaves like the model is the harness's job;
-* *same value in every language output; stamped into every header by `send_message`* — checked on the implementation.
+* *depends only on name, id, ordered field names with type texts* — `text_function_of_identity`,
+  `hash_function_of_identity` (the value, not only the text);
+* *same from every file location, import order, unrelated definitions* — `stored_hash_is_own_digest`,
+  `relocation_keeps_hash`: in the registration walk (any files under any paths in any order, any neighbours) every
+  stored definition carries the digest of its own text; only `src` depends on the place;
+* *regardless of comments, blank lines* (and quoting, hex spelling of the id, key order, indentation widths) — the
+  hashed text is not a substring of the source: it is re-rendered from the values the YAML loader delivers.
+  `Model/YamlDef.lean` models that loader for the block-style subset definition files use (`loadDef`: comment
+  stripping, blank-line removal, block-mapping structure, implicit typing of scalars; `sourceDigest` = the hash as a
+  function of the physical lines) and `comment_line_ignored`, `blank_line_ignored`, `trailing_comment_ignored`,
+  `trailing_blanks_ignored`, `source_hash_function_of_identity` are theorems about it; hex / key order / quotes /
+  indentation are evaluated examples.  That ruamel.yaml loads like `loadDef` is decided on the implementation:
+  the real lines of every generated definition, decorated at random, go through both;
+* *changes whenever any of those changes* — the text: `rawText_injective_partial`, `edit_changes_text`, and one theorem
+  per edit kind of the quantifier (`rename_… id_change_… field_rename_… field_retype_… field_insert_… field_delete_…
+  field_reorder_… signal_message_changes_text`); the value: `edit_changes_hash` under the explicit hypothesis
+  `NoCollision t₁ t₂` (the two texts are not a collision of SHA-256 truncated to 32 bits).  The hypothesis cannot be
+  dropped: `truncated_hash_collides`, `noCollision_not_universal` (pigeonhole).  The unconditional direction is
+  `equal_text_equal_hash`;
+* the re-use form `fields: OTHER`: the full statement is **false** (`reuse_form_hides_field_edits`,
+  `reuse_form_collides`, `full_injectivity_is_false` = finding C13-F1) and the exception is characterised exactly:
+  `message_text_injective_mod_reuse` (for all clean messages, re-use form included, the text is injective up to
+  `fields: O` ≙ the one-field list `[("fields", O)]`; what stays hidden are edits inside the re-used definition);
+* *the hash written into each language output is that same value, and the one senders place in the version field* —
+  `digest_prefix_is_hash32` (what `hash[:8]` is), and on the implementation: the model's `hash32` is compared with the
+  parser's value, the Python / C / JavaScript / MATLAB constants and `header.version` of frames sent by a real
+  `Client` (CORR), and `Spec/HashText.lean: judgeOutputs` judges the values found (PROP).
 -/
 namespace Pyrtma.C13
 open Pyrtma.HashText
@@ -290,6 +313,384 @@ theorem full_injectivity_is_false :
    { kind := .message, name := ['M'], id := 1, fields := .list [("fields".toList, ['S'])] },
    by decide, by decide, by decide, reuse_form_collides _ _ _⟩
 
+
+/-! ## the hash value (SHA-256 inside the model) -/
+
+/-- the published SHA-256 vectors (FIPS 180-4 examples: empty, `abc`, the 448-bit and the 896-bit message; one-block /
+two-block padding boundary at 55 / 56 bytes) hold for the model — evaluated by the kernel, no axiom -/
+theorem sha256_published_vectors :
+    Sha256.hexDigest [] = "e3b0c44298fc1c149afbf4c8996fb92427ae41e4649b934ca495991b7852b855".toList ∧
+    Sha256.hexDigest (Sha256.utf8 "abc".toList) = "ba7816bf8f01cfea414140de5dae2223b00361a396177a9cb410ff61f20015ad".toList ∧
+    Sha256.hexDigest (Sha256.utf8 "abcdbcdecdefdefgefghfghighijhijkijkljklmklmnlmnomnopnopq".toList) =
+      "248d6a61d20638b8e5c026930c3e6039a33ce45964ff2167f6ecedd419db06c1".toList ∧
+    Sha256.hexDigest (Sha256.utf8
+      "abcdefghbcdefghicdefghijdefghijkefghijklfghijklmghijklmnhijklmnoijklmnopjklmnopqklmnopqrlmnopqrsmnopqrstnopqrstu".toList) =
+      "cf5b16a778af8380036ce59e7b0492370b249b11e8f07a51afac45037afee9d1".toList ∧
+    Sha256.hexDigest (List.replicate 55 0) = "02779466cdec163811d078815c633f21901413081449002f24aa3e80f0b88ef7".toList ∧
+    Sha256.hexDigest (List.replicate 56 0) = "d4817aa5497628e7c77e6b606107042bbba3130888c5f47a375e6179be789fbb".toList :=
+  ⟨Sha256.nist_empty, Sha256.nist_abc, Sha256.nist_448, Sha256.nist_896, Sha256.nist_55_zeros, Sha256.nist_56_zeros⟩
+
+/-- **Unconditional half of "the hash identifies the text"**: equal text ⇒ equal digest and equal 32-bit version
+hash (`hash32` and `digestHex` are functions of `rawText`). -/
+theorem equal_text_equal_hash (d₁ d₂ : Def) (h : rawText d₁ = rawText d₂) :
+    hash32 d₁ = hash32 d₂ ∧ digestHex d₁ = digestHex d₂ := by
+  simp [hash32, digestHex, h]
+
+/-- **The version hash depends only on name, id and the ordered field names with their type texts** — the number
+the four outputs print and `send_message` stamps, not just the text. -/
+theorem hash_function_of_identity (d₁ d₂ : Def) (i : Identity)
+    (h₁ : d₁.identity? = some i) (h₂ : d₂.identity? = some i) :
+    hash32 d₁ = hash32 d₂ ∧ digestHex d₁ = digestHex d₂ :=
+  equal_text_equal_hash d₁ d₂ (text_function_of_identity d₁ d₂ i h₁ h₂)
+
+/-- every message definition (signal, listed fields, re-use form) has a version hash, and it is a 32-bit number -/
+theorem message_has_hash (d : Def) (hk : d.kind = .message) : ∃ n, hash32 d = some n ∧ n < 4294967296 := by
+  have : ∃ t, rawText d = some t := by
+    unfold rawText rawLines
+    cases hf : d.fields <;> simp [hk]
+  obtain ⟨t, ht⟩ := this
+  exact ⟨text32 t, by simp [hash32, ht], Sha256.word0_lt _⟩
+
+/-- what every back end prints, `hash[:8]`, is the hex spelling of `hash32` -/
+theorem digest_prefix_is_hash32 (d : Def) (h : Str) (n : Nat) (hd : digestHex d = some h) (hn : hash32 d = some n) :
+    h.take 8 = Sha256.hex8 n := by
+  unfold digestHex at hd; unfold hash32 at hn
+  cases ht : rawText d with
+  | none => simp [ht] at hd
+  | some t =>
+    simp only [ht, Option.map_some, Option.some.injEq] at hd hn
+    subst hd hn
+    exact Sha256.hexDigest_take8 _
+
+/-- **The explicit hypothesis under which "the text changes" becomes "the hash changes"**: these two texts are not
+a collision of SHA-256 truncated to 32 bits.  It cannot be dropped: see `truncated_hash_collides`. -/
+def NoCollision (t₁ t₂ : Str) : Prop := text32 t₁ = text32 t₂ → t₁ = t₂
+
+/-- **Every edit changes the version hash — under `NoCollision` for the two texts involved** (and outside the
+re-use form, C13-F1): two messages with different identity have different `hash32`. -/
+theorem edit_changes_hash (d₁ d₂ : Def) (i₁ i₂ : Identity) (hc₁ : d₁.clean = true) (hc₂ : d₂.clean = true)
+    (h₁ : d₁.identity? = some i₁) (h₂ : d₂.identity? = some i₂) (hne : i₁ ≠ i₂)
+    (t₁ t₂ : Str) (ht₁ : rawText d₁ = some t₁) (ht₂ : rawText d₂ = some t₂) (hnc : NoCollision t₁ t₂) :
+    hash32 d₁ ≠ hash32 d₂ := by
+  intro heq
+  have hte := edit_changes_text d₁ d₂ i₁ i₂ hc₁ hc₂ h₁ h₂ hne
+  simp only [hash32, ht₁, ht₂, Option.map_some, Option.some.injEq] at heq
+  exact hte (by rw [ht₁, ht₂, hnc heq])
+
+def sigDef (i : Nat) : Def := { kind := .message, name := ['M'], id := (i : Int), fields := .null }
+
+theorem sigDef_text (i : Nat) :
+    rawText (sigDef i) = some (joinWith ['\n'] [['M', ':'], "  id: ".toList ++ showInt i, "  fields: null".toList]) := by
+  have := rawText_eq_join (d := sigDef i) (ls := [['M', ':'], "  id: ".toList ++ showInt i, "  fields: null".toList])
+    (by simp [notReuse, sigDef]) (by simp [rawLines, sigDef])
+  exact this
+
+/-- **SHA-256 truncated to 32 bits is not injective, so `NoCollision` is a real hypothesis**: among the signals
+`M` with ids `0 … 2^32` two have the same version hash although their texts differ (pigeonhole; the pair is not
+exhibited). -/
+theorem truncated_hash_collides :
+    ∃ i j : Nat, i ≠ j ∧ rawText (sigDef i) ≠ rawText (sigDef j) ∧ hash32 (sigDef i) = hash32 (sigDef j) := by
+  let f : Nat → Nat := fun i => text32 (joinWith ['\n'] [['M', ':'], "  id: ".toList ++ showInt i, "  fields: null".toList])
+  obtain ⟨i, j, hij, _, he⟩ := pigeonhole 4294967296 f (fun i _ => Sha256.word0_lt _)
+  refine ⟨i, j, by omega, ?_, ?_⟩
+  · have hi : (sigDef i).identity? = some ⟨true, ['M'], (i : Int), []⟩ := by simp [Def.identity?, sigDef]
+    have hj : (sigDef j).identity? = some ⟨true, ['M'], (j : Int), []⟩ := by simp [Def.identity?, sigDef]
+    have hcl : ∀ k, (sigDef k).clean = true := fun k => by simp [sigDef, Def.clean, noNl]
+    exact edit_changes_text _ _ _ _ (hcl i) (hcl j) hi hj (by simp; omega)
+  · simp only [hash32, sigDef_text, Option.map_some, Option.some.injEq]
+    exact he
+
+/-- … hence `NoCollision` does not hold for all pairs of texts -/
+theorem noCollision_not_universal : ¬ ∀ t₁ t₂ : Str, NoCollision t₁ t₂ := by
+  intro h
+  obtain ⟨i, j, _, hne, he⟩ := truncated_hash_collides
+  rw [sigDef_text, sigDef_text] at hne
+  simp only [hash32, sigDef_text, Option.map_some, Option.some.injEq] at he
+  exact hne (by rw [h _ _ he])
+
+/-! ## every single edit of the quantifier, one by one (text; with `NoCollision` the hash: `edit_changes_hash`)
+
+`msg n i fs` is a message with listed fields, `sig n i` a signal.  Each theorem takes the edited definition in the
+shape the edit produces, requires the edit to be effective (new ≠ old) and the components to be clean. -/
+
+def msg (n : Str) (i : Int) (fs : List (Str × Str)) : Def := { kind := .message, name := n, id := i, fields := .list fs }
+def sig (n : Str) (i : Int) : Def := { kind := .message, name := n, id := i, fields := .null }
+
+theorem msg_identity (n : Str) (i : Int) (fs : List (Str × Str)) : (msg n i fs).identity? = some ⟨false, n, i, fs⟩ := rfl
+theorem sig_identity (n : Str) (i : Int) : (sig n i).identity? = some ⟨true, n, i, []⟩ := rfl
+
+theorem msg_clean {n : Str} {i : Int} {fs : List (Str × Str)} :
+    (msg n i fs).clean = (noNl n && fs.all cleanField) := rfl
+theorem sig_clean {n : Str} {i : Int} : (sig n i).clean = noNl n := by simp [sig, Def.clean]
+
+/-- two listed-field messages that differ in name, id or field list never share a text -/
+theorem msg_text_ne {n n' : Str} {i i' : Int} {fs fs' : List (Str × Str)}
+    (hc : (msg n i fs).clean = true) (hc' : (msg n' i' fs').clean = true)
+    (hne : n ≠ n' ∨ i ≠ i' ∨ fs ≠ fs') : rawText (msg n i fs) ≠ rawText (msg n' i' fs') :=
+  edit_changes_text _ _ _ _ hc hc' (msg_identity n i fs) (msg_identity n' i' fs') (by
+    intro h; cases h; rcases hne with h | h | h <;> exact h rfl)
+
+/-- rename -/
+theorem rename_changes_text {n n' : Str} {i : Int} {fs : List (Str × Str)}
+    (hc : (msg n i fs).clean = true) (hn' : noNl n' = true) (hne : n ≠ n') :
+    rawText (msg n i fs) ≠ rawText (msg n' i fs) :=
+  msg_text_ne hc (by rw [msg_clean] at hc ⊢; simp_all) (Or.inl hne)
+
+/-- id change -/
+theorem id_change_changes_text {n : Str} {i i' : Int} {fs : List (Str × Str)}
+    (hc : (msg n i fs).clean = true) (hne : i ≠ i') : rawText (msg n i fs) ≠ rawText (msg n i' fs) :=
+  msg_text_ne hc hc (Or.inr (Or.inl hne))
+
+theorem all_set {α} {p : α → Bool} : ∀ {l : List α} {k : Nat} {a : α}, l.all p = true → p a = true → (l.set k a).all p = true
+  | [], _, _, _, _ => by simp
+  | x :: l, 0, a, h, ha => by simp only [List.set_cons_zero, List.all_cons, Bool.and_eq_true] at h ⊢; exact ⟨ha, h.2⟩
+  | x :: l, k + 1, a, h, ha => by
+    simp only [List.set_cons_succ, List.all_cons, Bool.and_eq_true] at h ⊢
+    exact ⟨h.1, all_set h.2 ha⟩
+
+theorem set_ne {α} : ∀ {l : List α} {k : Nat} {a : α} (hk : k < l.length), l[k] ≠ a → l.set k a ≠ l
+  | x :: l, 0, a, _, h => by simp only [List.getElem_cons_zero] at h; simp [List.set_cons_zero]; exact fun e => h e.symm
+  | x :: l, k + 1, a, hk, h => by
+    simp only [List.getElem_cons_succ] at h
+    simp only [List.set_cons_succ, ne_eq, List.cons.injEq, true_and]
+    exact set_ne (by simpa using hk) h
+
+/-- field rename: the field at position `k` gets another name -/
+theorem field_rename_changes_text {n : Str} {i : Int} {fs : List (Str × Str)} {k : Nat} {fn : Str}
+    (hc : (msg n i fs).clean = true) (hk : k < fs.length) (hcl : cleanField (fn, fs[k].2) = true) (hne : fs[k].1 ≠ fn) :
+    rawText (msg n i fs) ≠ rawText (msg n i (fs.set k (fn, fs[k].2))) := by
+  rw [msg_clean, Bool.and_eq_true] at hc
+  refine msg_text_ne (by rw [msg_clean, Bool.and_eq_true]; exact hc)
+    (by rw [msg_clean, Bool.and_eq_true]; exact ⟨hc.1, all_set hc.2 hcl⟩) (Or.inr (Or.inr (Ne.symm (set_ne hk ?_))))
+  intro h; exact hne (by rw [h])
+
+/-- field type change: the field at position `k` gets another type text -/
+theorem field_retype_changes_text {n : Str} {i : Int} {fs : List (Str × Str)} {k : Nat} {ty : Str}
+    (hc : (msg n i fs).clean = true) (hk : k < fs.length) (hcl : cleanField (fs[k].1, ty) = true) (hne : fs[k].2 ≠ ty) :
+    rawText (msg n i fs) ≠ rawText (msg n i (fs.set k (fs[k].1, ty))) := by
+  rw [msg_clean, Bool.and_eq_true] at hc
+  refine msg_text_ne (by rw [msg_clean, Bool.and_eq_true]; exact hc)
+    (by rw [msg_clean, Bool.and_eq_true]; exact ⟨hc.1, all_set hc.2 hcl⟩) (Or.inr (Or.inr (Ne.symm (set_ne hk ?_))))
+  intro h; exact hne (by rw [h])
+
+/-- field insertion at any position `k ≤ length` (a longer list is a different list) -/
+theorem field_insert_changes_text {n : Str} {i : Int} {fs : List (Str × Str)} {k : Nat} {p : Str × Str}
+    (hc : (msg n i fs).clean = true) (hk : k ≤ fs.length) (hp : cleanField p = true) :
+    rawText (msg n i fs) ≠ rawText (msg n i (fs.take k ++ p :: fs.drop k)) := by
+  rw [msg_clean, Bool.and_eq_true] at hc
+  refine msg_text_ne (by rw [msg_clean, Bool.and_eq_true]; exact hc) ?_ (Or.inr (Or.inr ?_))
+  · rw [msg_clean, Bool.and_eq_true]
+    refine ⟨hc.1, ?_⟩
+    rw [List.all_append, List.all_cons, Bool.and_eq_true, Bool.and_eq_true]
+    have h := hc.2
+    rw [← List.take_append_drop k fs, List.all_append, Bool.and_eq_true] at h
+    exact ⟨h.1, hp, h.2⟩
+  · intro h
+    have := congrArg List.length h
+    simp only [List.length_append, List.length_cons, List.length_take, List.length_drop] at this
+    omega
+
+/-- field deletion at any position `k < length` -/
+theorem field_delete_changes_text {n : Str} {i : Int} {fs : List (Str × Str)} {k : Nat}
+    (hc : (msg n i fs).clean = true) (hk : k < fs.length) :
+    rawText (msg n i fs) ≠ rawText (msg n i (fs.take k ++ fs.drop (k + 1))) := by
+  rw [msg_clean, Bool.and_eq_true] at hc
+  refine msg_text_ne (by rw [msg_clean, Bool.and_eq_true]; exact hc) ?_ (Or.inr (Or.inr ?_))
+  · rw [msg_clean, Bool.and_eq_true]
+    refine ⟨hc.1, ?_⟩
+    rw [List.all_append, Bool.and_eq_true]
+    have h := hc.2
+    have h1 : (fs.take k).all cleanField = true := by
+      rw [← List.take_append_drop k fs, List.all_append, Bool.and_eq_true] at h; exact h.1
+    have h2 : (fs.drop (k + 1)).all cleanField = true := by
+      rw [← List.take_append_drop (k + 1) fs, List.all_append, Bool.and_eq_true] at h; exact h.2
+    exact ⟨h1, h2⟩
+  · intro h
+    have := congrArg List.length h
+    simp only [List.length_append, List.length_take, List.length_drop] at this
+    omega
+
+/-- reordering: any rearrangement `fs'` of the same fields that is not the same list -/
+theorem field_reorder_changes_text {n : Str} {i : Int} {fs fs' : List (Str × Str)}
+    (hc : (msg n i fs).clean = true) (hperm : fs'.Perm fs) (hne : fs ≠ fs') :
+    rawText (msg n i fs) ≠ rawText (msg n i fs') := by
+  rw [msg_clean, Bool.and_eq_true] at hc
+  refine msg_text_ne (by rw [msg_clean, Bool.and_eq_true]; exact hc) ?_ (Or.inr (Or.inr hne))
+  rw [msg_clean, Bool.and_eq_true]
+  refine ⟨hc.1, ?_⟩
+  rw [List.all_eq_true] at hc ⊢
+  intro x hx
+  exact hc.2 x (hperm.mem_iff.mp hx)
+
+/-- signal ↔ message: a signal and a message with listed fields (even an empty list) never share a text,
+whatever their names and ids -/
+theorem signal_message_changes_text {n n' : Str} {i i' : Int} {fs : List (Str × Str)}
+    (hs : (sig n i).clean = true) (hm : (msg n' i' fs).clean = true) :
+    rawText (sig n i) ≠ rawText (msg n' i' fs) :=
+  edit_changes_text _ _ _ _ hs hm (sig_identity n i) (msg_identity n' i' fs) (by intro h; cases h)
+
+/-! ## the re-use form, precisely: the text is injective up to `fields: O` ≙ one field named `fields` of type `O` -/
+
+/-- the definition whose text a re-use-form message shares (`reuse_form_collides`) -/
+def normRef (d : Def) : Def :=
+  match d.kind, d.fields with
+  | .message, .ref o => { d with fields := .list [("fields".toList, o)] }
+  | _, _ => d
+
+theorem rawText_normRef (d : Def) : rawText (normRef d) = rawText d := by
+  obtain ⟨k, n, i, f⟩ := d
+  cases k <;> cases f <;> simp only [normRef]
+  exact (reuse_form_collides n _ i).symm
+
+theorem normRef_props (d : Def) (hk : d.kind = .message) (hc : d.clean = true) :
+    (normRef d).clean = true ∧ notReuse (normRef d) = true ∧ (normRef d).kind = .message := by
+  obtain ⟨k, n, i, f⟩ := d
+  simp only at hk; subst hk
+  cases f with
+  | null => exact ⟨hc, rfl, rfl⟩
+  | list fs => exact ⟨hc, rfl, rfl⟩
+  | ref o =>
+    refine ⟨?_, rfl, rfl⟩
+    simp only [Def.clean, Bool.and_eq_true] at hc
+    simp only [noNl_iff] at hc
+    simp [normRef, Def.clean, cleanField, noNl, hasColonSpace, fieldsWord_eq]
+    exact hc
+
+/-- **The class of C13-F1, exactly**: for *all* clean message definitions — re-use form included — equal texts
+force equal name, id and equal field component up to the identification of `fields: O` with the one-field list
+`[("fields", O)]`.  So for a re-use-form message a rename, an id change and pointing at another definition all
+change the text; the only edits it hides are edits *inside* the re-used definition (`reuse_form_hides_field_edits`:
+they are not in the text at all) and the only foreign definition it collides with is the one-field message. -/
+theorem message_text_injective_mod_reuse (d₁ d₂ : Def) (hk₁ : d₁.kind = .message) (hk₂ : d₂.kind = .message)
+    (hc₁ : d₁.clean = true) (hc₂ : d₂.clean = true) (h : rawText d₁ = rawText d₂) : normRef d₁ = normRef d₂ := by
+  obtain ⟨c₁, r₁, k₁⟩ := normRef_props d₁ hk₁ hc₁
+  obtain ⟨c₂, r₂, k₂⟩ := normRef_props d₂ hk₂ hc₂
+  have ht : ∃ t, rawText (normRef d₁) = some t := by
+    have := message_has_hash (normRef d₁) k₁
+    cases hr : rawText (normRef d₁) with
+    | none => obtain ⟨_, h1, _⟩ := this; simp [hash32, hr] at h1
+    | some t => exact ⟨t, rfl⟩
+  obtain ⟨t, ht⟩ := ht
+  have ht₂ : rawText (normRef d₂) = some t := by rw [rawText_normRef, ← h, ← rawText_normRef, ht]
+  obtain ⟨hk, hn, hi, hf⟩ := rawText_injective_partial _ _ c₁ c₂ r₁ r₂ t ht ht₂
+  generalize normRef d₁ = a at *
+  generalize normRef d₂ = b at *
+  obtain ⟨ka, na, ia, fa⟩ := a
+  obtain ⟨kb, nb, ib, fb⟩ := b
+  simp only at hk hn hi hf k₁
+  subst hk hn hf
+  rw [hi k₁]
+
+/-! ## the location is not an input: the registration walk -/
+
+/-- **Same hash from every file, directory, import order and whatever else is defined**: whatever the walk —
+any files under any paths in any order, any other definitions before and after — every stored definition carries
+the digest of its own text, computed from the loaded value alone.  (`src`, stored next to it, does change.) -/
+theorem stored_hash_is_own_digest (walk : List SrcFile) (reg : List Stored) (h : registerAll walk [] = some reg)
+    (s : Stored) (hs : s ∈ reg) :
+    ∃ f ∈ walk, ∃ d ∈ f.defs, s.name = d.name ∧ some s.raw = rawText d ∧ some s.hash = digestHex d ∧ s.src = f.path := by
+  rcases registerAll_mem h s hs with hm | ⟨f, hf, d, hd, he⟩
+  · simp at hm
+  · refine ⟨f, hf, d, hd, ?_⟩
+    unfold storeDef at he
+    cases ht : rawText d with
+    | none => simp [ht] at he
+    | some t =>
+      simp only [ht, Option.map_some, Option.some.injEq] at he
+      subst he
+      simp [digestHex, ht]
+
+/-- two compilations that both register a definition of identity `i` — in whatever file, directory and position
+of whatever import graph, next to whatever other definitions — store the same hash for it -/
+theorem relocation_keeps_hash (walk₁ walk₂ : List SrcFile) (reg₁ reg₂ : List Stored)
+    (h₁ : registerAll walk₁ [] = some reg₁) (h₂ : registerAll walk₂ [] = some reg₂)
+    (s₁ s₂ : Stored) (hs₁ : s₁ ∈ reg₁) (hs₂ : s₂ ∈ reg₂) (i : Identity)
+    (hi₁ : ∀ f ∈ walk₁, ∀ d ∈ f.defs, d.name = s₁.name → d.identity? = some i)
+    (hi₂ : ∀ f ∈ walk₂, ∀ d ∈ f.defs, d.name = s₂.name → d.identity? = some i) : s₁.hash = s₂.hash := by
+  obtain ⟨f₁, hf₁, d₁, hd₁, hn₁, _, hh₁, _⟩ := stored_hash_is_own_digest walk₁ reg₁ h₁ s₁ hs₁
+  obtain ⟨f₂, hf₂, d₂, hd₂, hn₂, _, hh₂, _⟩ := stored_hash_is_own_digest walk₂ reg₂ h₂ s₂ hs₂
+  have := (hash_function_of_identity d₁ d₂ i (hi₁ f₁ hf₁ d₁ hd₁ hn₁.symm) (hi₂ f₂ hf₂ d₂ hd₂ hn₂.symm)).2
+  rw [← hh₁, ← hh₂] at this
+  exact Option.some.inj this
+
+/-! ## from the source lines: what the YAML loader drops never reaches the hash (`Model/YamlDef.lean`)
+
+`sourceDigest k ls` = the hash as a function of the physical lines of a definition block: `loadDef` (comment
+stripping, blank-line removal, block-mapping structure, implicit typing of scalars) followed by `digestHex`.
+The correspondence check feeds the real lines of every generated definition — decorated at random — to `loadDef`. -/
+
+section Source
+open Pyrtma.YamlDef
+
+/-- **A comment line — at any indentation, whatever it says — changes neither the loaded value nor the hash.** -/
+theorem comment_line_ignored (k : Kind) (a b : List Line) (bl c : Line) (hb : bl.all isBlank = true) :
+    loadDef k (a ++ (bl ++ '#' :: c) :: b) = loadDef k (a ++ b) ∧
+    sourceDigest k (a ++ (bl ++ '#' :: c) :: b) = sourceDigest k (a ++ b) := by
+  have : loadDef k (a ++ (bl ++ '#' :: c) :: b) = loadDef k (a ++ b) := by
+    unfold loadDef; rw [clean_insert a b _ (cleanLine_comment bl c hb)]
+  exact ⟨this, by unfold sourceDigest; rw [this]⟩
+
+/-- **A blank line (empty, or blanks only) changes neither the loaded value nor the hash.** -/
+theorem blank_line_ignored (k : Kind) (a b : List Line) (bl : Line) (hb : bl.all isBlank = true) :
+    loadDef k (a ++ bl :: b) = loadDef k (a ++ b) ∧ sourceDigest k (a ++ bl :: b) = sourceDigest k (a ++ b) := by
+  have : loadDef k (a ++ bl :: b) = loadDef k (a ++ b) := by
+    unfold loadDef; rw [clean_insert a b _ (cleanLine_blank bl hb)]
+  exact ⟨this, by unfold sourceDigest; rw [this]⟩
+
+/-- **A trailing comment on any line whose quotes are closed changes neither the loaded value nor the hash.** -/
+theorem trailing_comment_ignored (k : Kind) (a b : List Line) (l bl c : Line) (hl : Complete l)
+    (hb : bl.all isBlank = true) (hne : bl ≠ []) :
+    loadDef k (a ++ (l ++ (bl ++ '#' :: c)) :: b) = loadDef k (a ++ l :: b) ∧
+    sourceDigest k (a ++ (l ++ (bl ++ '#' :: c)) :: b) = sourceDigest k (a ++ l :: b) := by
+  have : loadDef k (a ++ (l ++ (bl ++ '#' :: c)) :: b) = loadDef k (a ++ l :: b) := by
+    unfold loadDef; rw [clean_replace a b l _ (cleanLine_trailing_comment l bl c hl hb hne)]
+  exact ⟨this, by unfold sourceDigest; rw [this]⟩
+
+/-- **Trailing blanks change neither the loaded value nor the hash.** -/
+theorem trailing_blanks_ignored (k : Kind) (a b : List Line) (l bl : Line) (hl : Complete l) (hb : bl.all isBlank = true) :
+    loadDef k (a ++ (l ++ bl) :: b) = loadDef k (a ++ l :: b) ∧
+    sourceDigest k (a ++ (l ++ bl) :: b) = sourceDigest k (a ++ l :: b) := by
+  have : loadDef k (a ++ (l ++ bl) :: b) = loadDef k (a ++ l :: b) := by
+    unfold loadDef; rw [clean_replace a b l _ (cleanLine_trailing_blanks l bl hl hb)]
+  exact ⟨this, by unfold sourceDigest; rw [this]⟩
+
+/-- the hash of a loaded definition is the hash of its identity: the source enters only through `loadDef` -/
+theorem source_hash_function_of_identity (k : Kind) (ls₁ ls₂ : List Line) (d₁ d₂ : Def) (i : Identity)
+    (h₁ : loadDef k ls₁ = some d₁) (h₂ : loadDef k ls₂ = some d₂) (i₁ : d₁.identity? = some i) (i₂ : d₂.identity? = some i) :
+    sourceDigest k ls₁ = sourceDigest k ls₂ := by
+  simp only [sourceDigest, h₁, h₂, Option.bind_some]
+  exact (hash_function_of_identity d₁ d₂ i i₁ i₂).2
+
+private def srcPlain : List Line := ["  M:", "    id: 1006", "    fields:", "      a: int32", "      b: double[2]"].map String.toList
+/-- the same definition: hex id, `fields` before `id`, quoted type texts, other indentation widths, comments with
+colons / `#` / quotes, blank lines, trailing blanks -/
+private def srcDecorated : List Line :=
+  ["  M:   # the definition: M", "", "       fields:  ", "   # a comment line: fields: null", "            a:   'int32'  # a # b",
+   "", "            b: \"double[2]\"", "#id: 99", "       id: 0x3ee # 'x' \"y\"", "     "].map String.toList
+
+example : loadDef .message srcPlain = some (msg "M".toList 1006 [("a".toList, "int32".toList), ("b".toList, "double[2]".toList)]) := by
+  decide
+example : loadDef .message srcDecorated = loadDef .message srcPlain := by decide
+example : sourceDigest .message srcDecorated = sourceDigest .message srcPlain := by
+  have : loadDef .message srcDecorated = loadDef .message srcPlain := by decide
+  simp [sourceDigest, this]
+example : (sourceDigest .message srcDecorated).map (·.take 8) = some "311e4282".toList := by decide +kernel
+/-- signal forms: `null`, `~`, nothing -/
+example : loadDef .message (["  S:", "    id: 12", "    fields: null"].map String.toList) = some (sig "S".toList 12) := by decide
+example : loadDef .message (["  S:", "    fields: ~", "    id: 12"].map String.toList) = some (sig "S".toList 12) := by decide
+example : loadDef .message (["  S:", "    fields:", "    id: 0xC"].map String.toList) = some (sig "S".toList 12) := by decide
+/-- outside the modelled subset the loader says so (no guess): flow style, a boolean, a missing id -/
+example : loadDef .message (["  S:", "    id: 12", "    fields: {a: int32}"].map String.toList) = none := by decide
+example : loadDef .message (["  S:", "    id: true", "    fields: null"].map String.toList) = none := by decide
+example : loadDef .message (["  S:", "    fields: null"].map String.toList) = none := by decide
+/-- hypotheses of the decoration theorems are satisfiable -/
+example : Complete "      b: \"double[2]\"".toList := Or.inr (by decide)
+example : Complete "    id: 5  # already a comment".toList := Or.inl (by decide)
+example : ¬ Complete "      b: \"double[2]".toList := by
+  intro h; rcases h with h | h <;> revert h <;> decide
+
+end Source
+
 /-! ## non-vacuity -/
 
 example : rawText { kind := .message, name := "M".toList, id := 12, fields := .null } =
@@ -303,5 +704,38 @@ example : rawText { kind := .struct, name := "S".toList, fields := .ref "T".toLi
     some "S:\n  fields:\n\n\n\n\nf\ni\ne\nl\nd\ns\n:\n\nT".toList := by decide
 example : ({ kind := .message, name := "M".toList, id := 12, fields := .list [("a".toList, "int32".toList)] } : Def).clean = true := by
   decide
+
+
+/-- the number itself: `MDF.hash[:8]` of the signal `M` with id 12 is `03dc6182` (hashlib agrees: `Proofs/Sha256.lean`) -/
+example : hash32 (sig "M".toList 12) = some 0x03dc6182 := by decide +kernel
+example : (digestHex (sig "M".toList 12)).map (·.take 8) = some "03dc6182".toList := by decide +kernel
+/-- an edit that changes the text and — for this pair, checked by evaluation — the 32-bit hash: `NoCollision` holds -/
+example : NoCollision "M:\n  id: 12\n  fields: null".toList "M:\n  id: 13\n  fields: null".toList :=
+  fun h => absurd h (by decide +kernel)
+example : hash32 (sig "M".toList 12) ≠ hash32 (sig "M".toList 13) := by decide +kernel
+/-- the per-edit theorems have satisfiable hypotheses -/
+example : rawText (msg "M".toList 1 [("a".toList, "int32".toList), ("b".toList, "double".toList)]) ≠
+    rawText (msg "M".toList 1 ([("a".toList, "int32".toList), ("b".toList, "double".toList)].set 1 ("c".toList, "double".toList))) :=
+  field_rename_changes_text (k := 1) (by decide) (by decide) (by decide) (by decide)
+example : rawText (msg "M".toList 1 [("a".toList, "int32".toList), ("b".toList, "double".toList)]) ≠
+    rawText (msg "M".toList 1 [("b".toList, "double".toList), ("a".toList, "int32".toList)]) :=
+  field_reorder_changes_text (by decide) (List.Perm.swap _ _ _) (by decide)
+example : rawText (msg "M".toList 1 [("a".toList, "int32".toList)]) ≠
+    rawText (msg "M".toList 1 ([("a".toList, "int32".toList)].take 1 ++ ("z".toList, "char".toList) :: [("a".toList, "int32".toList)].drop 1)) :=
+  field_insert_changes_text (by decide) (by decide) (by decide)
+/-- the re-use form: a rename is visible, and `normRef` is where it lands -/
+example : normRef { kind := .message, name := "M".toList, id := 1, fields := .ref "S".toList } = msg "M".toList 1 [("fields".toList, "S".toList)] := by
+  decide
+/-- one definition, two locations (other file, other directory, other neighbours, other position): `src` differs,
+the stored hash does not -/
+example :
+    let d := msg "M".toList 7 [("a".toList, "int32".toList)]
+    let w₁ := [SrcFile.mk "defs.yaml".toList [d]]
+    let w₂ := [SrcFile.mk "inc/other.yaml".toList [sig "X".toList 1], SrcFile.mk "moved/deeper/m.yaml".toList [sig "Y".toList 2, d]]
+    ((registerAll w₁ []).map (·.map (fun s => (s.name, s.src)))) = some [("M".toList, "defs.yaml".toList)] ∧
+    ((registerAll w₂ []).map (·.map (fun s => (s.name, s.src)))) =
+      some [("X".toList, "inc/other.yaml".toList), ("Y".toList, "moved/deeper/m.yaml".toList), ("M".toList, "moved/deeper/m.yaml".toList)] ∧
+    ((registerAll w₁ []).bind (·[0]?)).map (·.hash) = ((registerAll w₂ []).bind (·[2]?)).map (·.hash) := by
+  decide +kernel
 
 end Pyrtma.C13
